@@ -250,6 +250,11 @@ def judge_module_rule(ev: Event) -> None:
         return
     mods, imps = ev.truth
     acc.count("rule_events")
+    if len(set(map(tuple, cfg["subs"]))) != len(cfg["subs"]) or len(set(map(tuple, cfg["objs"]))) != len(cfg["objs"]):
+        # a module listed twice is the same module: judge the rule over the set of filters
+        acc.count("rules_with_duplicate_list_entries")
+        cfg = dict(cfg, subs=list(dict.fromkeys(map(tuple, cfg["subs"]))), objs=list(dict.fromkeys(map(tuple, cfg["objs"]))))
+        ev = Event(ev.api, cfg, ev.outcome, ev.message, ev.exc_type, ev.evaluable_id, ev.truth, ev.extra)
     ok_domain, why = rrule.strict_domain(cfg, mods)
     acc.hist("c01_domain", why or "strict")
     wellformed = (
